@@ -671,6 +671,9 @@ func (s *Server) readResponse() (*agent.Response, error) {
 	return response, nil
 }
 
+// Largest batch size hint honored when pre-allocating the points of a batch.
+const maxBatchSizeHint = 1 << 16
+
 func (s *Server) handleResponse(response *agent.Response) error {
 	// Always reset the keepalive timer since we received a response
 	select {
@@ -686,20 +689,49 @@ func (s *Server) handleResponse(response *agent.Response) error {
 	case *agent.Response_Keepalive:
 		// Noop we already reset the keepalive timer
 	case *agent.Response_Info:
+		if msg.Info == nil {
+			return errors.New("received empty info response")
+		}
 		s.doResponse(response, s.infoResponse)
 	case *agent.Response_Init:
+		if msg.Init == nil {
+			return errors.New("received empty init response")
+		}
 		s.doResponse(response, s.initResponse)
 	case *agent.Response_Snapshot:
+		if msg.Snapshot == nil {
+			return errors.New("received empty snapshot response")
+		}
 		s.doResponse(response, s.snapshotResponse)
 	case *agent.Response_Restore:
+		if msg.Restore == nil {
+			return errors.New("received empty restore response")
+		}
 		s.doResponse(response, s.restoreResponse)
 	case *agent.Response_Error:
+		if msg.Error == nil {
+			return errors.New("received empty error response")
+		}
 		s.diag.Error("received error message", errors.New(msg.Error.Error))
 		return errors.New(msg.Error.Error)
 	case *agent.Response_Begin:
+		if msg.Begin == nil {
+			return errors.New("received empty begin batch response")
+		}
+		if msg.Begin.Size < 0 {
+			return fmt.Errorf("received begin batch response with negative size %d", msg.Begin.Size)
+		}
+		// The size is only a hint, do not let the peer dictate the allocation.
+		sizeHint := msg.Begin.Size
+		if sizeHint > maxBatchSizeHint {
+			sizeHint = maxBatchSizeHint
+		}
 		s.begin = msg.Begin
-		s.points = make([]edge.BatchPointMessage, 0, msg.Begin.Size)
+		s.points = make([]edge.BatchPointMessage, 0, sizeHint)
 	case *agent.Response_Point:
+		if msg.Point == nil {
+			return errors.New("received empty point response")
+		}
 		if s.points != nil {
 			bp := edge.NewBatchPointMessage(
 				s.typeMapsToFields(
@@ -734,6 +766,12 @@ func (s *Server) handleResponse(response *agent.Response) error {
 			}
 		}
 	case *agent.Response_End:
+		if msg.End == nil {
+			return errors.New("received empty end batch response")
+		}
+		if s.begin == nil {
+			return errors.New("received end batch response without a begin batch response")
+		}
 		begin := edge.NewBeginBatchMessage(
 			msg.End.Name,
 			msg.End.Tags,
@@ -754,7 +792,8 @@ func (s *Server) handleResponse(response *agent.Response) error {
 		s.begin = nil
 		s.points = nil
 	default:
-		panic(fmt.Sprintf("unexpected response message %T", msg))
+		// e.g. a response without any message set
+		return fmt.Errorf("unexpected response message %T", msg)
 	}
 	return nil
 }
